@@ -206,6 +206,13 @@ pub fn generate(tier: Tier, rng: &mut Rng) -> Vec<Case> {
             }
         }
     }
+    // string keys that spell numbers are string keys: a numeric query never reaches them, by any
+    // route, and the reverse
+    for (m, qs) in [("{'1': 'x', '-3': 'y', '2u': 'z'}", ["1", "1u", "-3", "2u", "1.0", "'1'", "'-3'", "'2u'", "'2'"]), ("{1: 'x', 2u: 'y'}", ["'1'", "'2'", "'2u'", "1", "2u", "2", "1u", "'1.0'", "true"])] {
+        for q in qs {
+            push(&mut out, &default, format!("[{q} in {m}, {m}.contains({q}), {m}[{q}] != null]"), None, vec!["map", "numeric-looking-string-keys"]);
+        }
+    }
     // presence is about the key, not about the value: entries whose values are the zero / empty
     // value of their kind are as present as any other, for every way of asking
     for (vsrc, v) in [
